@@ -13,7 +13,7 @@ impl ProgProperty for C01 {
         "C01"
     }
     fn rule(&self) -> String {
-        "generated programs (structured idioms 55%, wide SCC 12%, raw 15%, roaming 10%, deep 5%, bigconst 3%) x input x width, run by IrInterpreter::execute at levels 0,1,2,3 and one of {4,5,17,u32::MAX}; every run is compared event-for-event with the reference; for the level above 3 additionally optimize(n) == optimize(3) structurally. Non-trivial: the canonical run repeats some loop body, produces at least one event, and level-1 optimisation changes the IR; distinct = distinct (program, input, width)".into()
+        "generated programs (structured idioms 55%, wide SCC 12%, raw 15%, roaming 10%, deep 5%, bigconst 3%) x input x width, run by IrInterpreter::execute at levels 0,1,2,3 and one of {4,5,17,u32::MAX}; every run is compared event-for-event with the reference; for the level above 3 additionally optimize(n) == optimize(3) structurally. Non-trivial: the canonical run repeats some loop body, produces at least one event, and level-1 optimisation changes the IR; distinct = distinct (program, input, width) A third of the halting programs at 16/32 bit and two thirds at 64 bit carry the upper-bits probe (family `...+probe`): an appended epilogue takes the canonical final value of every small-magnitude cell out again, counts the cells in which anything is left and prints the count (0 canonically), which makes the bits above the low byte observable.".into()
     }
     fn assumptions(&self) -> Vec<String> {
         vec![]
